@@ -140,6 +140,51 @@ pub fn rejected_candidates(n: usize, seed: [u8; 32], cap: u32) -> u32 {
     cap
 }
 
+/// `fvh hunt-late <n> <first> <count>`: seeds whose first candidate passing the cheap tests is NOT
+/// the (f, g) of the generated key, i.e. it was rejected later (unsolvable NTRU equation, F or G out
+/// of range): the key generator's late-rejection path.
+pub fn hunt_late(n: usize, first: u64, count: u64) {
+    use falcon_rust::verif_hooks::keygen_parts as kp;
+    use rand::SeedableRng;
+    let lim = (1i64 << (refimpl::params::params(n).fg_bits - 1)) - 1;
+    let next = std::sync::atomic::AtomicU64::new(0);
+    std::thread::scope(|sc| {
+        for _ in 0..16 {
+            sc.spawn(|| loop {
+                let i = next.fetch_add(1, std::sync::atomic::Ordering::Relaxed);
+                if i >= count {
+                    break;
+                }
+                let seed = crate::util::seed32(0x1A7E_0000_0000 + first + i);
+                let mut rng = rand::rngs::StdRng::from_seed(seed);
+                let mut cand = None;
+                for _ in 0..400 {
+                    let f = kp::gen_poly(n, &mut rng);
+                    let g = kp::gen_poly(n, &mut rng);
+                    if f.iter().chain(g.iter()).any(|x| (*x as i64).abs() > lim) {
+                        continue;
+                    }
+                    if refimpl::zq::evaluate_at_roots(&crate::util::to_i64(&f)).iter().any(|&x| x == 0) {
+                        continue;
+                    }
+                    if kp::gram_schmidt_norm_squared(&f, &g) > 1.3689 * 12289.0 {
+                        continue;
+                    }
+                    cand = Some((f, g));
+                    break;
+                }
+                if let Some((f, g)) = cand {
+                    let (sk, _) = api::keygen(n, seed);
+                    let (kf, kg, _, _) = sk.fg();
+                    if kf != crate::util::to_i64(&f) || kg != crate::util::to_i64(&g) {
+                        println!("{} {}", n, hex(&seed));
+                    }
+                }
+            });
+        }
+    });
+}
+
 /// `fvh hunt-c15 <n> <first> <count> <min>`: seeds with at least <min> rejected candidates.
 pub fn hunt(n: usize, first: u64, count: u64, min: u32) {
     let next = std::sync::atomic::AtomicU64::new(0);
